@@ -122,6 +122,12 @@ class MetaMC(type):
     def __rand__(cls, other):
         return Intersection[other, cls]
 
+    def __or__(cls, other):
+        return Union[cls, other]
+
+    def __ror__(cls, other):
+        return Union[other, cls]
+
     def __str__(self):
         return str(self._handler)
 
